@@ -219,6 +219,10 @@ func (intp *Interpreter) executeOne(obj Object, execProc bool) error {
 		a := intp.procStart[len(intp.procStart)-1]
 		intp.procStart = intp.procStart[:len(intp.procStart)-1]
 		b := len(intp.Stack)
+		if b < a {
+			// an error handler has popped elements of the unfinished body
+			return intp.e(eStackunderflow, "procedure body was removed from the stack")
+		}
 		proc := make(Procedure, b-a)
 		copy(proc, intp.Stack[a:])
 		intp.Stack = append(intp.Stack[:a], proc)
